@@ -73,10 +73,12 @@ Block ==
      LET bad == NewOf(V, vs, "bad")
          good == NewOf(V, vs, "good")
          free == Keys \ SetOf(psi.o)
-     IN \/ \E cf \in CulpritChoices(bad, free), ff \in FaultChoices(good, free) :
-             \E extra \in {{}} \cup {{[t |-> t, k |-> k, v |-> TRUE]} : t \in bad, k \in free \ {ff[g] : g \in good}} :
-                 Apply(vs, SeqOfCulprits(cf), SeqOfFaults(ff, extra))
-        \/ Apply(vs, <<>>, <<>>)                        \* no culprits / faults at all
+     IN IF MustReject(V, psi, vs) \/ ~StrictlySorted([i \in 1..Len(vs) |-> vs[i].t])
+        THEN Apply(vs, <<>>, <<>>)                      \* refused whatever the culprits and faults are
+        ELSE \/ \E cf \in CulpritChoices(bad, free), ff \in FaultChoices(good, free) :
+                  \E extra \in {{}} \cup {{[t |-> t, k |-> k, v |-> TRUE]} : t \in bad, k \in free \ {ff[g] : g \in good}} :
+                      Apply(vs, SeqOfCulprits(cf), SeqOfFaults(ff, extra))
+             \/ Apply(vs, <<>>, <<>>)                   \* no culprits / faults at all
 
 Next == Block \/ \E c \in 1..Cores, r \in Reports : Place(c, r)
 Spec == Init /\ [][Next]_vars
